@@ -106,6 +106,10 @@ JOBS = [
     Job('DMS.DecodeAngle', 'DMS::DecodeAngle', ['C10', 'C13', 'C14'], replace=[('DMS::Decode', dict(select=r'string', may_throw=True))], description='arc angle'),
     Job('DMS.DecodeAzimuth', 'DMS::DecodeAzimuth', ['C10', 'C13', 'C14'], replace=[('DMS::Decode', dict(select=r'string', may_throw=True)), 'Math::AngNormalize'],
         description='azimuth'),
+    # ---- output masks / line objects (C12), ranges (C01)
+    Job('GeodesicLine.GenPosition', 'GeodesicLine::GenPosition', ['C12', 'C01', 'C13', 'C14'], const_classes=['<Geodesic'], timeout=600,
+        replace=['Math::sincosd', 'Math::atan2d', ('Math::AngNormalize', dict(ghost=False)), 'Geodesic::SinCosSeries', 'GeodesicLineExact::GenPosition'],
+        inline=['GeodesicLine::Init'], sat='cadical', description='position on a geodesic line (series): output-mask frame, NaN rule, ranges'),
 ]
 
 
@@ -125,11 +129,53 @@ NOT_BUILT = 'in reach of the technique (DESIGN.md section 5) but its contracts a
 NOT_APPLICABLE = {
     'C02': NUMERIC, 'C03': NUMERIC, 'C06': NUMERIC, 'C11': NUMERIC, 'C15': NUMERIC,
     'C17': NUMERIC + '; NearestNeighbor is a C++ template over user types that neither the C extraction nor the CBMC C++ front end can take',
-    'C01': NOT_BUILT, 'C07': NOT_BUILT, 'C08': NOT_BUILT, 'C09': NOT_BUILT,
-    'C12': NOT_BUILT, 'C13': NOT_BUILT, 'C14': NOT_BUILT, 'C19': NOT_BUILT, 'C20': NOT_BUILT,
+ 'C07': NOT_BUILT, 'C08': NOT_BUILT, 'C09': NOT_BUILT,
+      'C19': NOT_BUILT, 'C20': NOT_BUILT,
 }
 
 PROPS = {
+    'C01': dict(
+        level='other',
+        level_text='Only two discrete clauses of this (numeric) property are decided, by proof: returned azimuths, latitudes and (without unrolling) longitudes of '
+                   'GeodesicLine::GenPosition lie in [-180,180] / [-90,90] for every line state and argument, via the contract of Math::atan2d / AngNormalize; '
+                   'and Math::atan2d itself (quadrants, exact axes). The accuracy claims are not decided by this technique.',
+        level_note='Trusted: as C18 and C12; range-only libm models. Not decided: every accuracy / agreement clause, coefficient values, unrolled-longitude circuit count.',
+        design_ref='DESIGN.md section 5, C01',
+        explanation='Contract-based proof of the range clauses only (obligations listed under functions_under_contract); the numeric core of C01 '
+                    '(end point lies on the true geodesic to 15 nm, solvers agree) cannot be expressed as a contract that cbmc can discharge: see DESIGN.md sections 1 and 6.',
+        not_decided=['end point / azimuth / distance accuracy vs the true geodesic', 'series, exact, delegating and line forms agree', 'lon2 - lon1 counts circuits with LONG_UNROLL'],
+    ),
+    'C13': dict(
+        level='proof',
+        level_text='For every function under contract (enumerated in the evidence): memory safety, signed overflow, float->integer conversion range, division by zero, '
+                   'only GeographicErr is thrown (every throw statement is checked at extraction; callee exceptions propagate), outputs are unchanged when it throws, '
+                   'NaN arguments give NaN / INVALID without an exception -- for all inputs within the stated string capacity.',
+        level_note='Trusted: as C18. The hundreds of public entry points that are not extracted, file readers (iostream), NearestNeighbor::Load, hangs (termination) are not decided; '
+                   'message expressions are dropped except for their numeric conversions, substr positions and table reads (rule R7b).',
+        design_ref='DESIGN.md section 5, C13',
+        not_decided=['entry points not under contract (see functions_under_contract for the complete list of those that are)', 'malformed data files (Geoid/Gravity/Magnetic readers)',
+                     'termination'],
+    ),
+    'C14': dict(
+        level='proof',
+        level_text='The sufficient frame condition for thread safety, for the functions under contract only: each const / static API function has a discharged '
+                   '__CPROVER_assigns frame that contains no object member and no file-scope or function-local static, so concurrent calls share read-only state.',
+        level_note='Trusted: as C18; C++11 thread-safe initialisation of function-local static const objects (rule R9). Schedules as such are not explored (cbmc sees sequential C); '
+                   'classes outside the extraction (kissfft scratch buffer, sqrttable growth, singletons first touched concurrently) are not decided.',
+        design_ref='DESIGN.md section 5, C14',
+        not_decided=['interleavings as such', 'the const API of classes that are not extracted', 'AuxLatitude::Convert mutable coefficient cache (finding F6: see DESIGN section 7)'],
+    ),
+    'C12': dict(
+        level='proof',
+        level_text='For all 2^16 masks x all capability words x both arc modes: an output that was not requested or that the line lacks the capability '
+                   'for is byte-for-byte untouched (conditional __CPROVER_assigns frame), a line that cannot locate the point returns NaN and writes nothing, '
+                   'the const method writes no member; discharged by cbmc on the extracted GenPosition.',
+        level_note='Trusted: as C18, plus ASSUMED contracts of Geodesic::SinCosSeries and of the exact-line delegate. Value independence beyond round-off '
+                   'of alternative evaluation paths, arc/distance consistency and third-point reproduction are numeric and not decided.',
+        design_ref='DESIGN.md section 5, C12',
+        not_decided=['values do not depend on the mask beyond round-off (numeric)', 'position by arc and by distance agree; stored third point reproduces the end point (numeric)',
+                     'GenInverse mask logic'],
+    ),
     'C10': dict(
         level='proof',
         level_text='Parser side: memory safety, index bounds and exception discipline of the DMS component parser and the angle/position decoders for '
